@@ -9,7 +9,10 @@
 //!        for correlation id `evid` with code `evcode` transmitted before the cycle
 //!   A <kind> <now>        add_publication / add_exclusive_publication / add_subscription / add_counter /
 //!                         add_destination (kind 0..4) at clock `now`
-//!   F <kind> <id> <now>   find_publication / - / find_subscription / find_counter / find_destination_response
+//!   F <kind> <id> <now>   find_publication / find_exclusive_publication / find_subscription / find_counter /
+//!                         find_destination_response; kind 1 goes through the hook
+//!                         ClientConductor::find_exclusive_publication_for_verif (hooks/cond-find-exclusive.diff) and is
+//!                         not generated while the repository lacks it
 //! observation: `[OCycle (Ok (n)) [log] active closed [v0; v1; v2; v3]; OApi (Ok (id)); ...]`, ending in `OPanic`
 //! when an operation panicked (the conductor mutex is poisoned from then on).
 mod client;
@@ -129,6 +132,8 @@ fn run_case(line: &str) -> String {
                     let mut g = conductor.lock().map_err(|_| ()).expect("poisoned");
                     match kind {
                         0 => g.find_publication(id).map(|_| 1),
+                        #[cfg(verif_find_excl)]
+                        1 => g.find_exclusive_publication_for_verif(id).map(|_| 1),
                         2 => g.find_subscription(id).map(|_| 1),
                         3 => g.find_counter(id).map(|_| 1),
                         4 => g.find_destination_response(id).map(|b| b as i64),
